@@ -369,6 +369,88 @@ fn repetition(r: &mut Rep) {
     }
 }
 
+/// "returning the closure's result", for results and captured values that own something: the caller receives the one value the
+/// closure produced - it is not destroyed before the caller gets it, not destroyed twice, and what the closure captured by value
+/// is destroyed exactly once; at nesting depths 1..4, with the flag clear and set
+fn result_ownership(r: &mut Rep) {
+    use std::sync::atomic::{AtomicU32, Ordering::SeqCst};
+    static MADE: AtomicU32 = AtomicU32::new(0);
+    static DROPS: AtomicU32 = AtomicU32::new(0);
+    static DROPS_WHILE_HELD: AtomicU32 = AtomicU32::new(0);
+    static HELD: AtomicU32 = AtomicU32::new(0);
+    struct Tok(u64);
+    impl Tok {
+        fn new(v: u64) -> Tok {
+            MADE.fetch_add(1, SeqCst);
+            Tok(v)
+        }
+    }
+    impl Drop for Tok {
+        fn drop(&mut self) {
+            DROPS.fetch_add(1, SeqCst);
+            if HELD.load(SeqCst) == 1 {
+                DROPS_WHILE_HELD.fetch_add(1, SeqCst);
+            }
+        }
+    }
+    #[inline(never)]
+    fn nest(depth: u32, v: u64) -> (Tok, Option<Tok>) {
+        if depth == 0 {
+            (Tok::new(v), Some(Tok::new(!v)))
+        } else {
+            let cap = Tok::new(v ^ 0x77);
+            interrupts::without_interrupts(move || {
+                let inner = nest(depth - 1, v ^ cap.0);
+                (Tok::new(inner.0 .0 ^ cap.0), inner.1)
+            })
+        }
+    }
+    for if0 in [false, true] {
+        for depth in 1..=4u32 {
+            let c = cpu();
+            c.rflags_sys = if if0 { 0x202 } else { 0x2 };
+            c.clear_events();
+            MADE.store(0, SeqCst);
+            DROPS.store(0, SeqCst);
+            DROPS_WHILE_HELD.store(0, SeqCst);
+            HELD.store(0, SeqCst);
+            let res = run_stepped(|| {
+                let got = nest(depth, 0x1234_5678_9abc_def0);
+                // from here on the caller owns the result: nothing may destroy it until the caller lets go
+                HELD.store(1, SeqCst);
+                let vals = (got.0 .0, got.1.as_ref().map(|t| t.0));
+                let alive_before_release = MADE.load(SeqCst) - DROPS.load(SeqCst);
+                HELD.store(0, SeqCst);
+                drop(got);
+                (vals, alive_before_release)
+            });
+            r.ev(true);
+            r.transitions += c.evs().len() as u64;
+            // reference: values and object counts from the same program without the sections
+            let mut v = 0x1234_5678_9abc_def0u64;
+            let mut caps = vec![];
+            for _ in 0..depth {
+                caps.push(v ^ 0x77);
+                v ^= v ^ 0x77;
+            }
+            let mut top = v;
+            for cap in caps.iter().rev() {
+                top ^= cap;
+            }
+            let exp_vals = (top, Some(!v));
+            let made = 2 + 2 * depth; // innermost pair + per level one captured token and one result token
+            let ok = match res {
+                Ok((vals, alive)) => vals == exp_vals && alive == 2 && MADE.load(SeqCst) == made && DROPS.load(SeqCst) == made && DROPS_WHILE_HELD.load(SeqCst) == 0,
+                Err(()) => false,
+            };
+            if !ok || c.interrupts_enabled() != if0 {
+                r.viol("C17|without_interrupts|result-or-captured-value-is-not-handed-over-exactly-once-(destroyed-early-twice-or-never)", &format!("own {} {}", if0 as u8, depth),
+                       &format!("{:x?} expected {:x?}; created {} destroyed {} (expected {}), destroyed while the caller held the result {}", res, exp_vals, MADE.load(SeqCst), DROPS.load(SeqCst), made, DROPS_WHILE_HELD.load(SeqCst)));
+            }
+        }
+    }
+}
+
 fn leaf_shapes(r: &mut Rep) {
     let shapes: &[(&str, fn(u64) -> u64, fn(u64) -> u64)] = &[
         ("leaf1", leaf1, ref1), ("leaf2", leaf2, ref2), ("leaf3n", leaf3, ref3), ("leaf4", leaf4, ref4), ("leaf6n", leaf6, ref6), ("leaf8", leaf8, ref8),
@@ -414,6 +496,8 @@ pub fn run(a: &Args) {
             repetition(&mut r);
         } else if t[0] == "leaf" {
             leaf_shapes(&mut r);
+        } else if t[0] == "own" {
+            result_ownership(&mut r);
         } else {
             simple_ops(&mut r);
         }
@@ -485,6 +569,7 @@ pub fn run(a: &Args) {
     if a.shard == 0 {
         guarded(&mut r, "C17|enable/disable/are_enabled|unexpected-panic", || "flagops".into(), |r| simple_ops(r));
         guarded(&mut r, "C17|without_interrupts|unexpected-panic", || "leaf".into(), |r| leaf_shapes(r));
+        guarded(&mut r, "C17|without_interrupts|unexpected-panic", || "own".into(), |r| result_ownership(r));
     }
     if a.shard == 2 % a.nshards {
         guarded(&mut r, "C17|enable_and_hlt|unexpected-panic", || "hltsite".into(), |r| hlt_placement(r));
